@@ -164,4 +164,121 @@ theorem absNode_fix_cmp (rnf : Bool) (F : Flow) (M : Maps) (ns : Array NodeM) (n
       exact List.map_congr_left (fun k _ => rfl)
     rw [e1, hp.cases, fixCases_tests _ hk]
 
+/-! ### `split_random` rows -/
+
+/-- the bucket step of `mkNode` -/
+def refStep (acc : List (Str × Option Id) × Nat) (e : OutEdge) : List (Str × Option Id) × Nat :=
+  let nm := if e.cond.name.isEmpty then e.cond.value else e.cond.name
+  if nm.isEmpty then (acc.1 ++ [("#".toList ++ RefFlow.natStr acc.2, tgtDest e.tgt)], acc.2 + 1)
+  else if acc.1.any (·.1 = nm) then
+    (acc.1.map (fun (p : Str × Option Id) => if p.1 = nm then (p.1, tgtDest e.tgt) else p), acc.2)
+  else (acc.1 ++ [(nm, tgtDest e.tgt)], acc.2)
+
+def bdest (p : Str × Target) : Str × Option Id := (p.1, tgtDest p.2)
+
+theorem refStep_bstep (acc : List (Str × Target) × Nat) (e : OutEdge) :
+    refStep (acc.1.map bdest, acc.2) e = ((bstep acc e).1.map bdest, (bstep acc e).2) := by
+  unfold refStep bstep
+  have hnm : (if e.cond.name.isEmpty then e.cond.value else e.cond.name) = bucketName e.cond := rfl
+  simp only [hnm]
+  have hany : (acc.1.map bdest).any (fun p => decide (p.1 = bucketName e.cond)) =
+      acc.1.any (fun p => decide (p.1 = bucketName e.cond)) := by
+    rw [List.any_map]; rfl
+  by_cases h1 : (bucketName e.cond).isEmpty = true
+  · simp only [h1, if_true, List.map_append, List.map_cons, List.map_nil]
+    rfl
+  · simp only [h1, Bool.false_eq_true, if_false, hany]
+    by_cases h2 : acc.1.any (fun p => decide (p.1 = bucketName e.cond)) = true
+    · simp only [h2, if_true, List.map_map]
+      congr 1
+      apply List.map_congr_left
+      intro p _
+      simp only [Function.comp, bdest]
+      by_cases h3 : p.1 = bucketName e.cond
+      · simp only [h3, if_true]
+      · simp only [h3, if_false]
+    · simp only [h2, Bool.false_eq_true, if_false, List.map_append, List.map_cons, List.map_nil]
+      rfl
+
+theorem fold_refStep (es : List OutEdge) : ∀ (acc : List (Str × Target) × Nat),
+    es.foldl refStep (acc.1.map bdest, acc.2) = ((es.foldl bstep acc).1.map bdest, (es.foldl bstep acc).2) := by
+  induction es with
+  | nil => intro acc; rfl
+  | cons e es ih =>
+    intro acc
+    simp only [List.foldl_cons]
+    rw [refStep_bstep, ih]
+
+/-- the buckets `mkNode` computes are the buckets of the edges -/
+theorem refBuckets (es : List OutEdge) : (es.foldl refStep ([], 0)).1 = (bucketsOf es).1.map bdest := by
+  have := fold_refStep es ([], 0)
+  simp only [List.map_nil] at this
+  rw [this]
+  rfl
+
+theorem mkNode_random (k : Nat) (r : RRow) (es : List OutEdge) (h : r.kind = .splitRandom) :
+    mkNode k r es =
+      { uuid := nodeId k, actions := refActs k r.act,
+        router := some (.random (((es.foldl refStep ([], 0)).1).zipIdx.map (fun (p : (Str × Option Id) × Nat) =>
+          ({ uuid := subId k "c" p.2, name := [], exitUuid := subId k "e" p.2 } : Category)))
+          (if r.saveName.isEmpty then none else some r.saveName)),
+        exits := ((es.foldl refStep ([], 0)).1).zipIdx.map (fun (p : (Str × Option Id) × Nat) =>
+          ({ uuid := subId k "e" p.2, dest := p.1.2 } : Exit)) } := by
+  unfold mkNode
+  simp only [h]
+  rfl
+
+/-- the shape both abstractions of a `split_random` row have -/
+def rndAbs (rnf : Bool) (saveName : Str) (dests : List (Option (Option Nat))) : ANode :=
+  { acts := [],
+    ask := some { kind := "random".toList, operand := [], tests := [], caseCats := [], otherCats := [],
+                  wait := none, resultName := if rnf then (if saveName.isEmpty then none else some saveName) else none },
+    dests := dests }
+
+/-- the reference node of a `split_random` row -/
+theorem absNode_rnd_ref (rnf : Bool) (f : Flow) (k : Nat) (r : RRow) (es : List OutEdge) (h : r.kind = .splitRandom)
+    (hact : r.act = none) :
+    absNode ⟨false, rnf⟩ f (mkNode k r es) =
+      rndAbs rnf r.saveName ((bucketsOf es).1.map (fun b => destIdx f (tgtDest b.2))) := by
+  rw [mkNode_random k r es h]
+  generalize hb : (es.foldl refStep ([], 0)).1 = bks
+  have h1 : ∀ (tag : String), bks.zipIdx.map (fun (p : (Str × Option Id) × Nat) => subId k tag p.2)
+      = (List.range bks.length).map (subId k tag) := fun tag => zipIdx_map_idx bks _
+  rw [absNode_random _ f _ _ _ rfl (by rw [List.map_map]; exact (h1 "c") ▸ range_subId_nodup _ _ _)
+    (by simp only [List.map_map]; exact (h1 "e") ▸ range_subId_nodup _ _ _)
+    (by simp only [List.map_map]; rfl)]
+  unfold rndAbs
+  congr 1
+  · rw [hact]; rfl
+  · simp only [List.map_map]
+    rw [← hb, refBuckets]
+    have := zipIdx_fst_map ((bucketsOf es).1.map bdest) (fun (p : Str × Option Id) => destIdx f p.2)
+    rw [List.map_map] at this
+    exact this
+
+/-- the abstraction of a compiled `split_random` node -/
+theorem absNode_rnd_cmp (rnf : Bool) (F : Flow) (n : NodeM) (r : RandomR) (saveName : Str)
+    (hr : n.router = some (.rnd r)) (hacts : n.actions = []) (hrn : r.resultName = some saveName)
+    (hfn0 : n.fids.Nodup) :
+    absNode ⟨false, rnf⟩ F (renderNode n) =
+      rndAbs rnf saveName (r.cats.map (fun c => destIdx F (renderDest c.dest))) := by
+  have hrids : r.ids.Nodup := by
+    unfold NodeM.fids NodeM.innerIds NodeM.tailIds at hfn0
+    rw [hr] at hfn0
+    exact (List.nodup_append.mp (List.nodup_append.mp hfn0).2.1).2.1
+  unfold RandomR.ids at hrids
+  have hex : (r.cats.map (·.exitUid)).Nodup := (List.nodup_append.mp hrids).1
+  have hcu : (r.cats.map (·.uid)).Nodup := (List.nodup_append.mp hrids).2.1
+  have hrouter : (renderNode n).router = some (.random (r.cats.map renderCat)
+      (if saveName.isEmpty then none else some saveName)) := by
+    simp only [renderNode, hr, Option.map_some, renderRouter, hrn]
+  have hexits : (renderNode n).exits = r.cats.map renderExit := by simp only [renderNode, hr]
+  rw [absNode_random _ F _ _ _ hrouter (by simpa [List.map_map, Function.comp_def, renderCat] using hcu)
+    (by rw [hexits]; simpa [List.map_map, Function.comp_def, renderExit] using hex)
+    (by rw [hexits]; simp [List.map_map, Function.comp_def, renderCat, renderExit])]
+  unfold rndAbs
+  congr 1
+  · simp [renderNode, hacts]
+  · rw [hexits, List.map_map]; rfl
+
 end Rpft.CoreSheet
